@@ -45,8 +45,8 @@ if valid:
     for p in [pid] + others:
         env = dict(os.environ); env["VERIF_REPO"] = scratch
         t0 = time.time()
-        rc, out = run("./vcheck %s %s 2>&1 | grep -E '^(OK|VIOLATION|INCONCL|violation|BUILD)' | cut -c1-500 | head -4" % (p, tier), cwd="/verif", env=env)
-        verdict = "VIOLATION" if "VIOLATION" in out else ("OK" if out.startswith("OK") or "\nOK" in out else "INCONCLUSIVE")
+        rc, out = run("./vcheck %s %s 2>&1 | grep -E '^(OK|VIOLATION|INCONCL|violation|BUILD)' | cut -c1-500 | head -6" % (p, tier), cwd="/verif", env=env)
+        verdict = "VIOLATION" if ("VIOLATION" in out or "violation:" in out) else ("OK" if out.startswith("OK") or "\nOK" in out else "INCONCLUSIVE")
         results[p] = {"tier": tier, "verdict": verdict, "wall_s": round(time.time()-t0, 1), "output": out[-900:]}
         print("check %s %s -> %s (%.0fs)" % (p, tier, verdict, time.time()-t0))
         print(out[-500:])
